@@ -1,5 +1,52 @@
-/- Line-protocol handler for C13 (stub until the model exists). -/
-import NoulithModel.Common
+/- Line-protocol handler for C13.
+Request: `<builtin> <arg> …` where an argument is a canonical value (`[1,s:61]`, `s:…`, `b:…`,
+`v[…]`, `stream[…]`, `d[…]` = a dictionary seen as its keys in iteration order) or a closure
+`f:<name>` / `f:<name>:<canonical constant>`.  Prefix `sorted!` before the builtin sorts the
+top-level list of the result by rendered text (results whose order comes out of a `HashMap`).
+Response: `<impl>\t<spec>`. -/
+import NoulithModel.Spec.SeqLibCall
+
 namespace Noulith.DriverC13
-def handle (_args : List String) : String := "bad-op"
+open Noulith Noulith.SeqLib
+
+def parseArg (s : String) : Option Arg :=
+  if s.startsWith "f:" then
+    let rest := (s.drop 2).toString
+    match rest.splitOn ":" with
+    | [name] => some (.f ⟨name, .null⟩)
+    | name :: ks =>
+      match Parse.parseVal (String.intercalate ":" ks) with
+      | some k => some (.f ⟨name, k⟩)
+      | none => none
+    | [] => none
+  else (Parse.parseVal s).map .v
+
+def parseArgs : List String → Option (List Arg)
+  | [] => some []
+  | s :: rest =>
+    match parseArg s, parseArgs rest with
+    | some a, some as => some (a :: as)
+    | _, _ => none
+
+def insertStr (e : String) : List String → List String
+  | [] => [e]
+  | h :: t => if e ≤ h then e :: h :: t else h :: insertStr e t
+
+def renderSorted (v : Val) : String :=
+  match v with
+  | .list xs => "[" ++ joinWith "," ((Val.renderList xs).foldr insertStr []) ++ "]"
+  | v => v.render
+
+def handle (args : List String) : String :=
+  match args with
+  | "sorted!" :: name :: rest =>
+    match parseArgs rest with
+    | some as => (call implLib name as).render renderSorted ++ "\t" ++ (call specLib name as).render renderSorted
+    | none => "bad-op"
+  | name :: rest =>
+    match parseArgs rest with
+    | some as => (call implLib name as).render Val.render ++ "\t" ++ (call specLib name as).render Val.render
+    | none => "bad-op"
+  | [] => "bad-op"
+
 end Noulith.DriverC13
